@@ -27,10 +27,12 @@ class FuncReport:
         self.paths = 0
 
 
-def entry_states(E, c, ci, self_cls):
+def entry_states(E, c, ci, self_cls, node=None):
     """one entry state per combination of parameter-kind alternatives"""
     plist = []
-    if ci is not None and not getattr(c, "static", False):
+    decs = ci.decorators.get(node.name, ()) if (ci is not None and node is not None) else ()
+    is_cm = "classmethod" in decs
+    if ci is not None and not getattr(c, "static", False) and not is_cm and "staticmethod" not in decs:
         sk = c.self_kind or Kind("ref", self_cls or ci.name)
         plist.append(("self", [sk]))
     for n, k in c.params:
@@ -54,6 +56,8 @@ def entry_states(E, c, ci, self_cls):
                 from . import pymodel
                 st.pc = st.pc + (z3.And(pymodel.iter_pos(E, st, v) >= 0,
                                         pymodel.iter_pos(E, st, v) <= z3.Length(pymodel.iter_seq(E, st, v))),)
+        if is_cm:
+            env[node.args.args[0].arg] = V(Kind("type"), ci.name)
         st.env = env
         # the entry heap is well-typed: reference fields of the parameter objects (two levels deep)
         # hold valid, correctly typed references
@@ -106,7 +110,7 @@ def verify_function(qual, prop, program=None, reg=None, self_cls=None, tag=None,
     try:
         n_cases = 0
         reach_exit = []
-        for st, env, label in entry_states(E, c, ci, self_cls):
+        for st, env, label in entry_states(E, c, ci, self_cls, node):
             n_cases += 1
             if only_case is not None and (n_cases - 1) != only_case:
                 continue
@@ -282,6 +286,8 @@ def _check_frame(E, c, mods, fr, prop, fname, st, env, entry, kindname):
                                 whole.add(key)
                 continue
             base = E.spec_value(node.value, entry, env, entry)
+            if base.kind.tag == "type":
+                base = E.class_object(base.t)
             fk = E.R.field_kind(base.kind[1], node.attr, E.P)
             if fk is None:
                 raise SpecError("modifies %s: undeclared field" % loc)
